@@ -254,6 +254,225 @@ fn next_valid(hw: &HbWorld, already: &[usize]) -> Option<usize> {
     })
 }
 
+
+/// The state a scenario carries from one response to the next.
+#[derive(Default)]
+pub struct RespondState {
+    pub orphaned: std::collections::BTreeSet<H32>,
+    pub offered: std::collections::BTreeMap<H32, bitcoin::block::Header>,
+    pub fee_tip: Option<usize>,
+}
+
+/// Delivers a response with the given contents (the canister must be ready to fetch), lets the
+/// canister process it, and judges the outcome. Returns false if the run cannot continue.
+#[allow(clippy::too_many_arguments)]
+pub fn deliver_and_judge(
+    hw: &mut HbWorld,
+    blocks: &[Vec<u8>],
+    hdrs: &[Vec<u8>],
+    fresh: &[(usize, bool)],
+    i: usize,
+    now: u64,
+    st: &mut RespondState,
+    out: &mut Outcome,
+) -> bool {
+    let ctx = format!("event {i}");
+    let orphaned = &mut st.orphaned;
+    let offered = &mut st.offered;
+    let fee_tip = &mut st.fee_tip;
+    let blocks: Vec<Vec<u8>> = blocks.to_vec();
+    let hdrs: Vec<Vec<u8>> = hdrs.to_vec();
+    hw.plan(ReplyPlan::Custom { blocks: blocks.clone(), next: hdrs.clone() });
+    // 3. fetch
+    let info = hw.heartbeat(None);
+    if let Some(p) = &info.trapped {
+        out.fail(format!("{ctx}: the heartbeat that fetched the response trapped: {p}"));
+        return false;
+    }
+    if step_errors(&info.step, out) {
+        return false;
+    }
+    if info.requests_issued != 1 {
+        out.fail(format!("{ctx}: expected exactly one request, saw {}", info.requests_issued));
+        return false;
+    }
+    // 4. the model's verdicts, in order, against the tree as it is now
+    let counters_before = can::with_state(|s| (s.syncing_state.num_block_deserialize_errors, s.syncing_state.num_insert_block_errors));
+    let pre_tree: Vec<H32> = sut::tree_hashes();
+    let mut expect_admitted: Vec<H32> = vec![];
+    let mut verdicts: Vec<&'static str> = vec![];
+    let mut failure: Option<(usize, bool)> = None;
+    let mut temp_admitted: Vec<usize> = vec![];
+    for (k, bytes) in blocks.iter().enumerate() {
+        let (v, blk) = judge_block(&hw, bytes, now);
+        verdicts.push(v.reason);
+        if v.admit {
+            let blk = blk.unwrap();
+            let hash = blk.block_hash().to_byte_array();
+            expect_admitted.push(hash);
+            // make it live in the model so that later items see it
+            let id = match hw.w.model.id_of(&hash) {
+                Some(id) => {
+                    // the body actually offered (it may differ from the block
+                    // first built in witness data only, which the hash does not
+                    // cover) is what the canister will hold
+                    hw.w.model.blocks[id].block = blk.clone();
+                    id
+                }
+                None => {
+                    let p = hw.w.model.id_of(&blk.header.prev_blockhash.to_byte_array()).unwrap();
+                    hw.w.model.add_block_detached(p, blk.clone(), 1)
+                }
+            };
+            hw.w.model.admit(id);
+            temp_admitted.push(id);
+        } else {
+            failure = Some((k, v.decode_failed));
+            match v.reason {
+                "already present" => out.class("refused_duplicate"),
+                "parent is not the anchor or an unstable block" => {
+                    out.class("refused_orphan");
+                    if let Some(b) = blk.as_ref() {
+                        orphaned.insert(b.block_hash().to_byte_array());
+                    }
+                }
+                "does not decode" => out.class("refused_garbage"),
+                "timestamp rule" => out.class("refused_timestamp"),
+                "unsound body" => out.class("refused_body"),
+                "insufficient work" | "wrong target" | "target above maximum" => out.class("refused_work_or_bits"),
+                _ => {}
+            }
+            break;
+        }
+    }
+    // roll the model back: the sync below admits what the canister admitted
+    for id in temp_admitted.iter().rev() {
+        hw.w.model.live.remove(id);
+    }
+    let stored_before: Vec<H32> = can::with_state(|s| s.unstable_blocks.verif_bookkeeping())
+        .next_headers
+        .iter()
+        .map(|(hash, _)| {
+            let mut a = [0u8; 32];
+            a.copy_from_slice(hash.as_bytes());
+            a
+        })
+        .collect();
+    // 5. process
+    let info = hw.heartbeat(None);
+    out.checks += 1;
+    if let Some(p) = &info.trapped {
+        out.fail(format!("{ctx}: the heartbeat that processed the response trapped: {p} (verdicts {:?})", verdicts));
+        return false;
+    }
+    if step_errors(&info.step, out) {
+        return false;
+    }
+    let got: Vec<H32> = info.admitted.iter().map(|id| hw.w.model.blocks[*id].hash).collect();
+    let mut got_sorted = got.clone();
+    got_sorted.sort();
+    let mut want_sorted = expect_admitted.clone();
+    want_sorted.sort();
+    if got_sorted != want_sorted {
+        out.fail(format!(
+            "{ctx}: the response's blocks have verdicts {:?}: expected {} admitted, the canister admitted {} (tree before: {} blocks)",
+            verdicts, expect_admitted.len(), got.len(), pre_tree.len()
+        ));
+    }
+    let counters_after = can::with_state(|s| (s.syncing_state.num_block_deserialize_errors, s.syncing_state.num_insert_block_errors));
+    let want_counters = match failure {
+        None => counters_before,
+        Some((_, true)) => (counters_before.0 + 1, counters_before.1),
+        Some((_, false)) => (counters_before.0, counters_before.1 + 1),
+    };
+    if counters_after != want_counters {
+        out.fail(format!("{ctx}: error counters (deserialize, insert) moved from {:?} to {:?}, expected {:?} (verdicts {:?})", counters_before, counters_after, want_counters, verdicts));
+    }
+    // special timestamp edges that were admitted become regular source blocks
+    for (id, _) in fresh {
+        if hw.w.model.live.contains(id) {
+            out.class("admitted_timestamp_edge");
+            let b = &hw.w.model.blocks[*id];
+            let parent = b.parent.unwrap();
+            let entry = crate::hb::SrcBlock { hash: b.hash, parent: hw.w.model.blocks[parent].hash, bytes: chain::serialize_block(&b.block), header: chain::serialize_header(&b.block.header) };
+            hw.source.borrow_mut().known.push(entry);
+        }
+    }
+    // model-based oracles: nothing else changed
+    super::c02::check_tip_agreement(&mut hw.w, i, out, fee_tip);
+    super::c20::check_bookkeeping(&mut hw.w, i, out);
+    for a in hw.w.distinct_addresses() {
+        if let Ok(Ok((ans, _))) = sut::get_utxos_all_pages(hw.w.cfg.net, &a, &sut::Filter::None, Some(3)) {
+            compare_utxos(&mut hw.w, &a, &ans, out, &format!("{ctx} get_utxos({a})"));
+        }
+    }
+    // stored announced headers must have been offered, be connected (to the tree or
+    // to another stored header), carry sufficient work for the regtest target and
+    // a timestamp not beyond now+2h, and must not be in the tree
+    for h in &hdrs {
+        if h.len() >= 80 {
+            if let Ok(hd) = bitcoin::consensus::deserialize::<bitcoin::block::Header>(&h[..80]) {
+                offered.insert(hd.block_hash().to_byte_array(), hd);
+            }
+        }
+    }
+    let snap = can::with_state(|s| s.unstable_blocks.verif_bookkeeping());
+    let stored: Vec<H32> = snap
+        .next_headers
+        .iter()
+        .map(|(hash, _)| {
+            let mut a = [0u8; 32];
+            a.copy_from_slice(hash.as_bytes());
+            a
+        })
+        .collect();
+    for ((_, height), a) in snap.next_headers.iter().zip(stored.iter()) {
+        if stored_before.contains(a) {
+            // connectedness is a condition for storing a header; a header stored
+            // earlier may have become stale since (its fork lost)
+            continue;
+        }
+        match offered.get(a) {
+            None => out.fail(format!("{ctx}: a header that was never offered is stored as announced")),
+            Some(hd) => {
+                out.class("announced_valid_stored");
+                let prev = hd.prev_blockhash.to_byte_array();
+                let parent_height = match hw.w.model.id_of(&prev) {
+                    Some(p) if hw.w.model.live.contains(&p) => Some(hw.w.model.blocks[p].height),
+                    _ => snap.next_headers.iter().zip(stored.iter()).find(|(_, s)| **s == prev).map(|((_, h), _)| *h),
+                };
+                match parent_height {
+                    None => out.fail(format!("{ctx}: an announced header that connects neither to the tree nor to another announced header is stored")),
+                    Some(ph) => {
+                        if ph + 1 != *height {
+                            out.fail(format!("{ctx}: an announced header is stored with height {height}, its parent is at height {ph}"));
+                        }
+                    }
+                }
+                if hd.bits.to_consensus() != chain::REGTEST_BITS || !hd.target().is_met_by(hd.block_hash()) || hd.time as u64 > now + 7200 {
+                    out.fail(format!("{ctx}: an invalid header (bits/work/timestamp) is stored as announced"));
+                }
+                if hw.w.model.id_of(a).map(|id| hw.w.model.live.contains(&id)).unwrap_or(false) {
+                    out.fail(format!("{ctx}: an announced header is stored although its block is in the tree"));
+                }
+            }
+        }
+    }
+    if let Some((k, _)) = failure {
+        if k >= 1 {
+            out.class("invalid_at_position_ge_1");
+        }
+        let later_valid = blocks.len() > k + 1;
+        if later_valid {
+            out.class("valid_after_invalid_dropped");
+        }
+        if k >= 1 || later_valid {
+            out.nontrivial(fnv(format!("{:?}-{}-{}", verdicts, blocks.len(), hdrs.len()).as_bytes()));
+        }
+    }
+    true
+}
+
 impl Property for C10 {
     type Case = Case10;
     fn id(&self) -> &'static str {
@@ -320,10 +539,8 @@ impl Property for C10 {
         let cfg = hb_cfg(case.threshold, case.pool.clone());
         let mut hw = HbWorld::new(&cfg, SutConfig::new(cfg.net, cfg.threshold as u32));
         let now = sut::NOW_SECS;
-        let mut orphaned: std::collections::BTreeSet<H32> = Default::default();
-        let mut fee_tip = None;
+        let mut st = RespondState::default();
         let mut special_nonce = 0u64;
-        let mut offered: std::collections::BTreeMap<H32, bitcoin::block::Header> = Default::default();
         for (i, ev) in case.evs.iter().enumerate() {
             let ctx = format!("event {i}");
             match ev {
@@ -340,7 +557,7 @@ impl Property for C10 {
                         return out;
                     }
                     for id in &info.admitted {
-                        if orphaned.contains(&hw.w.model.blocks[*id].hash) {
+                        if st.orphaned.contains(&hw.w.model.blocks[*id].hash) {
                             out.class("orphan_parent_arrives_later");
                         }
                     }
@@ -510,197 +727,106 @@ impl Property for C10 {
                     if hdrs.iter().any(|h| h.len() != 80) {
                         out.class("announced_garbage");
                     }
-                    hw.plan(ReplyPlan::Custom { blocks: blocks.clone(), next: hdrs.clone() });
-                    // 3. fetch
-                    let info = hw.heartbeat(None);
-                    if let Some(p) = &info.trapped {
-                        out.fail(format!("{ctx}: the heartbeat that fetched the response trapped: {p}"));
+                    if !deliver_and_judge(&mut hw, &blocks, &hdrs, &fresh, i, now, &mut st, &mut out) {
                         return out;
-                    }
-                    if step_errors(&info.step, &mut out) {
-                        return out;
-                    }
-                    if info.requests_issued != 1 {
-                        out.fail(format!("{ctx}: expected exactly one request, saw {}", info.requests_issued));
-                        return out;
-                    }
-                    // 4. the model's verdicts, in order, against the tree as it is now
-                    let counters_before = can::with_state(|s| (s.syncing_state.num_block_deserialize_errors, s.syncing_state.num_insert_block_errors));
-                    let pre_tree: Vec<H32> = sut::tree_hashes();
-                    let mut expect_admitted: Vec<H32> = vec![];
-                    let mut verdicts: Vec<&'static str> = vec![];
-                    let mut failure: Option<(usize, bool)> = None;
-                    let mut temp_admitted: Vec<usize> = vec![];
-                    for (k, bytes) in blocks.iter().enumerate() {
-                        let (v, blk) = judge_block(&hw, bytes, now);
-                        verdicts.push(v.reason);
-                        if v.admit {
-                            let blk = blk.unwrap();
-                            let hash = blk.block_hash().to_byte_array();
-                            expect_admitted.push(hash);
-                            // make it live in the model so that later items see it
-                            let id = match hw.w.model.id_of(&hash) {
-                                Some(id) => {
-                                    // the body actually offered (it may differ from the block
-                                    // first built in witness data only, which the hash does not
-                                    // cover) is what the canister will hold
-                                    hw.w.model.blocks[id].block = blk.clone();
-                                    id
-                                }
-                                None => {
-                                    let p = hw.w.model.id_of(&blk.header.prev_blockhash.to_byte_array()).unwrap();
-                                    hw.w.model.add_block_detached(p, blk.clone(), 1)
-                                }
-                            };
-                            hw.w.model.admit(id);
-                            temp_admitted.push(id);
-                        } else {
-                            failure = Some((k, v.decode_failed));
-                            match v.reason {
-                                "already present" => out.class("refused_duplicate"),
-                                "parent is not the anchor or an unstable block" => {
-                                    out.class("refused_orphan");
-                                    if let Some(b) = blk.as_ref() {
-                                        orphaned.insert(b.block_hash().to_byte_array());
-                                    }
-                                }
-                                "does not decode" => out.class("refused_garbage"),
-                                "timestamp rule" => out.class("refused_timestamp"),
-                                "unsound body" => out.class("refused_body"),
-                                "insufficient work" | "wrong target" | "target above maximum" => out.class("refused_work_or_bits"),
-                                _ => {}
-                            }
-                            break;
-                        }
-                    }
-                    // roll the model back: the sync below admits what the canister admitted
-                    for id in temp_admitted.iter().rev() {
-                        hw.w.model.live.remove(id);
-                    }
-                    let stored_before: Vec<H32> = can::with_state(|s| s.unstable_blocks.verif_bookkeeping())
-                        .next_headers
-                        .iter()
-                        .map(|(hash, _)| {
-                            let mut a = [0u8; 32];
-                            a.copy_from_slice(hash.as_bytes());
-                            a
-                        })
-                        .collect();
-                    // 5. process
-                    let info = hw.heartbeat(None);
-                    out.checks += 1;
-                    if let Some(p) = &info.trapped {
-                        out.fail(format!("{ctx}: the heartbeat that processed the response trapped: {p} (verdicts {:?})", verdicts));
-                        return out;
-                    }
-                    if step_errors(&info.step, &mut out) {
-                        return out;
-                    }
-                    let got: Vec<H32> = info.admitted.iter().map(|id| hw.w.model.blocks[*id].hash).collect();
-                    let mut got_sorted = got.clone();
-                    got_sorted.sort();
-                    let mut want_sorted = expect_admitted.clone();
-                    want_sorted.sort();
-                    if got_sorted != want_sorted {
-                        out.fail(format!(
-                            "{ctx}: the response's blocks have verdicts {:?}: expected {} admitted, the canister admitted {} (tree before: {} blocks)",
-                            verdicts, expect_admitted.len(), got.len(), pre_tree.len()
-                        ));
-                    }
-                    let counters_after = can::with_state(|s| (s.syncing_state.num_block_deserialize_errors, s.syncing_state.num_insert_block_errors));
-                    let want_counters = match failure {
-                        None => counters_before,
-                        Some((_, true)) => (counters_before.0 + 1, counters_before.1),
-                        Some((_, false)) => (counters_before.0, counters_before.1 + 1),
-                    };
-                    if counters_after != want_counters {
-                        out.fail(format!("{ctx}: error counters (deserialize, insert) moved from {:?} to {:?}, expected {:?} (verdicts {:?})", counters_before, counters_after, want_counters, verdicts));
-                    }
-                    // special timestamp edges that were admitted become regular source blocks
-                    for (id, _) in &fresh {
-                        if hw.w.model.live.contains(id) {
-                            out.class("admitted_timestamp_edge");
-                            let b = &hw.w.model.blocks[*id];
-                            let parent = b.parent.unwrap();
-                            let entry = crate::hb::SrcBlock { hash: b.hash, parent: hw.w.model.blocks[parent].hash, bytes: chain::serialize_block(&b.block), header: chain::serialize_header(&b.block.header) };
-                            hw.source.borrow_mut().known.push(entry);
-                        }
-                    }
-                    // model-based oracles: nothing else changed
-                    super::c02::check_tip_agreement(&mut hw.w, i, &mut out, &mut fee_tip);
-                    super::c20::check_bookkeeping(&mut hw.w, i, &mut out);
-                    for a in hw.w.distinct_addresses() {
-                        if let Ok(Ok((ans, _))) = sut::get_utxos_all_pages(hw.w.cfg.net, &a, &sut::Filter::None, Some(3)) {
-                            compare_utxos(&mut hw.w, &a, &ans, &mut out, &format!("{ctx} get_utxos({a})"));
-                        }
-                    }
-                    // stored announced headers must have been offered, be connected (to the tree or
-                    // to another stored header), carry sufficient work for the regtest target and
-                    // a timestamp not beyond now+2h, and must not be in the tree
-                    for h in &hdrs {
-                        if h.len() >= 80 {
-                            if let Ok(hd) = bitcoin::consensus::deserialize::<bitcoin::block::Header>(&h[..80]) {
-                                offered.insert(hd.block_hash().to_byte_array(), hd);
-                            }
-                        }
-                    }
-                    let snap = can::with_state(|s| s.unstable_blocks.verif_bookkeeping());
-                    let stored: Vec<H32> = snap
-                        .next_headers
-                        .iter()
-                        .map(|(hash, _)| {
-                            let mut a = [0u8; 32];
-                            a.copy_from_slice(hash.as_bytes());
-                            a
-                        })
-                        .collect();
-                    for ((_, height), a) in snap.next_headers.iter().zip(stored.iter()) {
-                        if stored_before.contains(a) {
-                            // connectedness is a condition for storing a header; a header stored
-                            // earlier may have become stale since (its fork lost)
-                            continue;
-                        }
-                        match offered.get(a) {
-                            None => out.fail(format!("{ctx}: a header that was never offered is stored as announced")),
-                            Some(hd) => {
-                                out.class("announced_valid_stored");
-                                let prev = hd.prev_blockhash.to_byte_array();
-                                let parent_height = match hw.w.model.id_of(&prev) {
-                                    Some(p) if hw.w.model.live.contains(&p) => Some(hw.w.model.blocks[p].height),
-                                    _ => snap.next_headers.iter().zip(stored.iter()).find(|(_, s)| **s == prev).map(|((_, h), _)| *h),
-                                };
-                                match parent_height {
-                                    None => out.fail(format!("{ctx}: an announced header that connects neither to the tree nor to another announced header is stored")),
-                                    Some(ph) => {
-                                        if ph + 1 != *height {
-                                            out.fail(format!("{ctx}: an announced header is stored with height {height}, its parent is at height {ph}"));
-                                        }
-                                    }
-                                }
-                                if hd.bits.to_consensus() != chain::REGTEST_BITS || !hd.target().is_met_by(hd.block_hash()) || hd.time as u64 > now + 7200 {
-                                    out.fail(format!("{ctx}: an invalid header (bits/work/timestamp) is stored as announced"));
-                                }
-                                if hw.w.model.id_of(a).map(|id| hw.w.model.live.contains(&id)).unwrap_or(false) {
-                                    out.fail(format!("{ctx}: an announced header is stored although its block is in the tree"));
-                                }
-                            }
-                        }
-                    }
-                    if let Some((k, _)) = failure {
-                        if k >= 1 {
-                            out.class("invalid_at_position_ge_1");
-                        }
-                        let later_valid = blocks.len() > k + 1;
-                        if later_valid {
-                            out.class("valid_after_invalid_dropped");
-                        }
-                        if k >= 1 || later_valid {
-                            out.nontrivial(fnv(format!("{:?}-{}-{}", verdicts, blocks.len(), hdrs.len()).as_bytes()));
-                        }
                     }
                 }
             }
         }
         out
     }
+}
+
+fn fuzz_base(hw: &mut HbWorld) -> Vec<usize> {
+    use crate::hist::TxSpec;
+    let tx = TxSpec { inputs: vec![100, 50000], outs: vec![(0, 5), (1, 3)], fee_permille: 5, witness: Some(3) };
+    let mut ids = vec![];
+    ids.push(hw.mine_on(0, &[(0, 5), (1, 5)], &[], 10));
+    ids.push(hw.mine_on(ids[0], &[(0, 1)], &[tx.clone()], 10));
+    ids.push(hw.mine_on(ids[1], &[(1, 1)], &[], 10));
+    ids.push(hw.mine_on(ids[2], &[(0, 2)], &[tx.clone()], 10));
+    ids.push(hw.mine_on(ids[0], &[(1, 7)], &[], 10)); // a fork block
+    // the first two are already part of the canister's view
+    for id in &ids[..2] {
+        let b = hw.w.model.blocks[*id].block.clone();
+        let _ = hw.w.push_to_sut(&b, 1);
+        hw.w.model.admit(*id);
+    }
+    ids
+}
+
+fn split_items(data: &[u8]) -> (Vec<Vec<u8>>, Vec<Vec<u8>>) {
+    // [n_blocks:1] { [len:2 LE] bytes }* [n_hdrs:1] { [len:1] bytes }*
+    let mut p = 0usize;
+    let mut blocks = vec![];
+    let mut hdrs = vec![];
+    let nb = data.first().copied().unwrap_or(0) % 4;
+    p += 1;
+    for _ in 0..nb {
+        if p + 2 > data.len() {
+            break;
+        }
+        let l = u16::from_le_bytes([data[p], data[p + 1]]) as usize;
+        p += 2;
+        let e = (p + l).min(data.len());
+        blocks.push(data[p..e].to_vec());
+        p = e;
+    }
+    let nh = data.get(p).copied().unwrap_or(0) % 4;
+    p += 1;
+    for _ in 0..nh {
+        if p >= data.len() {
+            break;
+        }
+        let l = data[p] as usize;
+        p += 1;
+        let e = (p + l).min(data.len());
+        hdrs.push(data[p..e].to_vec());
+        p = e;
+    }
+    (blocks, hdrs)
+}
+
+/// Raw entry point for the byte-level fuzz target: a fixed base scenario (two blocks admitted,
+/// three more known to the source) and a response whose blocks and announced headers are cut
+/// out of the input bytes.
+pub fn fuzz_response(data: &[u8]) -> Outcome {
+    let mut out = Outcome::default();
+    let cfg = hb_cfg(3, vec![chain::ScriptSpec::P2pkh(0), chain::ScriptSpec::P2wpkh(1)]);
+    let mut hw = HbWorld::new(&cfg, SutConfig::new(cfg.net, cfg.threshold as u32));
+    fuzz_base(&mut hw);
+    let (blocks, hdrs) = split_items(data);
+    let mut st = RespondState::default();
+    deliver_and_judge(&mut hw, &blocks, &hdrs, &[], 0, sut::NOW_SECS, &mut st, &mut out);
+    out
+}
+
+/// Corpus seeds for `fuzz_response`: the valid not-yet-admitted blocks and their headers.
+pub fn fuzz_response_seeds() -> Vec<Vec<u8>> {
+    let cfg = hb_cfg(3, vec![chain::ScriptSpec::P2pkh(0), chain::ScriptSpec::P2wpkh(1)]);
+    let mut hw = HbWorld::new(&cfg, SutConfig::new(cfg.net, cfg.threshold as u32));
+    let ids = fuzz_base(&mut hw);
+    let enc = |blocks: &[Vec<u8>], hdrs: &[Vec<u8>]| {
+        let mut d = vec![blocks.len() as u8];
+        for b in blocks {
+            d.extend((b.len() as u16).to_le_bytes());
+            d.extend(b);
+        }
+        d.push(hdrs.len() as u8);
+        for h in hdrs {
+            d.push(h.len() as u8);
+            d.extend(h);
+        }
+        d
+    };
+    let b = |i: usize| chain::serialize_block(&hw.w.model.blocks[ids[i]].block);
+    let h = |i: usize| chain::serialize_header(&hw.w.model.blocks[ids[i]].block.header);
+    vec![
+        enc(&[b(2)], &[h(3)]),
+        enc(&[b(2), b(3)], &[]),
+        enc(&[b(4), b(2)], &[h(3)]),
+        enc(&[b(3)], &[h(2), h(3)]),
+        enc(&[b(1)], &[h(4)]),
+        enc(&[], &[h(2), h(3), h(4)]),
+    ]
 }
